@@ -259,3 +259,28 @@ Proof.
   rewrite <- N.pow_add_r. replace (cluster_shift i + l2_slice_index_shift i + d) with (cluster_shift i + l2_index_shift i) by lia.
   exact E.
 Qed.
+
+Lemma geq_max_refcount_table_size size cb ro bs :
+  9 <= cb <= 21 -> ro <= 6 -> size < 2 ^ 64 -> 1 <= bs -> N.land bs (bs - 1) = 0 ->
+  call g_Qcow2Info_max_refcount_table_size [VInt size; VInt (2 ^ cb); VInt ro; VInt bs] =
+  match max_refcount_table_size size (2 ^ cb) ro bs with Some v => Ret (VInt v) | None => Panic end.
+Proof.
+  intros Hcb Hro Hs Hb Hp. unfold g_Qcow2Info_max_refcount_table_size, max_refcount_table_size.
+  assert (Pcb : 2 ^ cb <= 2 ^ 21) by (apply N.pow_le_mono_r; lia).
+  assert (Pc1 : 2 ^ 9 <= 2 ^ cb) by (apply N.pow_le_mono_r; lia).
+  assert (Pro : 1 <= 2 ^ ro <= 2 ^ 6) by (split; [apply pow2_ge1|apply N.pow_le_mono_r; lia]).
+  change (2 ^ 21) with 2097152 in *. change (2 ^ 9) with 512 in *. change (2 ^ 6) with 64 in *.
+  assert (Sro : N.shiftl 1 ro mod 18446744073709551616 = 2 ^ ro) by (rewrite N.shiftl_1_l; apply N.mod_small; lia).
+  set (rbe := 2 ^ cb * 8 / 2 ^ ro).
+  assert (Rb : 64 <= rbe <= 16777216).
+  { unfold rbe. split; [apply N.div_le_lower_bound; lia|apply N.div_le_upper_bound; lia]. }
+  assert (Per : 32768 <= rbe * 2 ^ cb < 18446744073709551616) by nia.
+  set (per := rbe * 2 ^ cb) in *.
+  assert (En : (size + per - 1) / per * 8 < 18446744073709551616).
+  { assert ((size + per - 1) / per <= (size + per - 1) / 32768) by (apply N.div_le_compat_l; lia).
+    assert ((size + per - 1) / 32768 < 1125899906842624) by (apply N.div_lt_upper_bound; lit_pows; lia). lia. }
+  rx. repeat hd. rewrite Sro. rx. repeat hd. fold rbe. rx. repeat hd. fold per. rx. repeat hd. rx.
+  destruct (N.ltb_spec ((size + per - 1) / per * 8) 18446744073709551616); [|lia]. rx.
+  rewrite (geq_align_up ((size + per - 1) / per * 8) bs Hb Hp). unfold v_optN.
+  destruct (align_up ((size + per - 1) / per * 8) bs); reflexivity.
+Qed.
